@@ -294,6 +294,12 @@ theorem ext_write_above {s s2 : State} (h : Ext s s2) (pos : Nat) (d : List UInt
     · exact h.tsig
   · exact h
 
+theorem frame_writeRdata (cls ty : Nat) (rd : List UInt8) : Frame (writeRdata cls ty rd) := by
+  unfold writeRdata
+  split
+  · exact frame_writeComponents _ _
+  · exact frame_panic
+
 theorem frame_setOwner (p : Option Prior) :
     Frame (M.modify fun s => { s with mostRecentOwner := p }) := by
   intro s; constructor <;> simp
@@ -320,8 +326,8 @@ theorem frame_addRr (hint : Hint) (owner : WName) (ty cls ttl : Nat) (rd : List 
         constructor <;> simp
         omega
       simp only [M.bind_apply, M.modify_apply]
-      have e2 := frame_writeComponents (componentTypes cls ty) rd { s with cursor := s.cursor + 2 }
-      cases hw : writeComponents (componentTypes cls ty) rd { s with cursor := s.cursor + 2 } with
+      have e2 := frame_writeRdata cls ty rd { s with cursor := s.cursor + 2 }
+      cases hw : writeRdata cls ty rd { s with cursor := s.cursor + 2 } with
       | mk r s2 =>
         rw [hw] at e2
         have e12 := Ext.trans e1 e2
@@ -1679,6 +1685,12 @@ theorem logOK_writeComponents (ts : List CompType) (rd : List UInt8) :
       · exact fun s h => h
       · exact hoare_bind (logOK_tryPush _ LogOK (fun s o c h => h)) (fun _ => ih _) (fun s h => h)
 
+theorem logOK_writeRdata (cls ty : Nat) (rd : List UInt8) : Hoare LogOK (writeRdata cls ty rd) LogOK := by
+  unfold writeRdata
+  split
+  · exact logOK_writeComponents _ _
+  · exact fun s h => h
+
 theorem logOK_write (pos : Nat) (d : List UInt8) : Hoare LogOK (write pos d) LogOK := by
   intro s h
   unfold write
@@ -1704,7 +1716,7 @@ theorem logOK_addRr (hint : Hint) (owner : WName) (ty cls ttl : Nat) (rd : List 
   · split
     · exact fun s h => h
     · refine hoare_bind (logOK_modify _ (fun s => rfl)) (fun _ =>
-        hoare_bind (logOK_writeComponents _ _) (fun _ => ?_) (fun s h => h)) (fun s h => h)
+        hoare_bind (logOK_writeRdata _ _ _) (fun _ => ?_) (fun s h => h)) (fun s h => h)
       refine hoare_gets_bind_any fun c => ?_
       split
       · exact fun s h => h
@@ -2061,5 +2073,104 @@ theorem setExtendedRcode_rejects (s : State) (v : Nat) (hv : v > 4095) :
   cases he : s.edns with
   | none => rfl
   | some e => simp only [Option.isSome_some, if_true]; rw [if_pos hv]; rfl
+
+end QV.Writer
+
+namespace QV.Writer
+open QV
+
+/-! ### Part 7: the `Rdata::components` dispatch (generated from the source) against RFC 3597 §4 -/
+
+/-- RFC 3597 §4 / RFC 1035 §3.3: the types whose RDATA may be compressed -/
+def rfc1035NameTypes : List Nat := [2, 3, 4, 5, 7, 8, 9, 12, 6, 14, 15]
+
+theorem lookup_cases (arms : List (List Nat × Option Nat × String)) (dflt : String) (c t : Nat) :
+    QV.Rdata.lookup arms dflt c t = dflt ∨
+    ∃ a ∈ arms, QV.Rdata.lookup arms dflt c t = a.2.2 ∧ a.1.contains t = true := by
+  induction arms with
+  | nil => left; rfl
+  | cons a rest ih =>
+    obtain ⟨tys, g, h⟩ := a
+    have tail : QV.Rdata.lookup rest dflt c t = dflt ∨
+        ∃ a ∈ (tys, g, h) :: rest, QV.Rdata.lookup rest dflt c t = a.2.2 ∧ a.1.contains t = true := by
+      rcases ih with h1 | ⟨a, ha, h2, h3⟩
+      · left; exact h1
+      · right; exact ⟨a, List.mem_cons_of_mem _ ha, h2, h3⟩
+    cases g with
+    | none =>
+      simp only [QV.Rdata.lookup, Bool.and_true]
+      by_cases hc : tys.contains t = true
+      · rw [if_pos hc]; right; exact ⟨_, List.mem_cons_self, rfl, hc⟩
+      · rw [if_neg hc]; exact tail
+    | some k =>
+      simp only [QV.Rdata.lookup]
+      by_cases hc : (tys.contains t && c == k) = true
+      · rw [if_pos hc]; right
+        refine ⟨_, List.mem_cons_self, rfl, ?_⟩
+        simp only [Bool.and_eq_true] at hc; exact hc.1
+      · rw [if_neg hc]; exact tail
+
+/-- the types of a handler, converted -/
+def handlerTypes (h : String) : Option (List CompType) :=
+  match QV.Rdata.componentTypesOf h with
+  | some tys => tys.mapM convCompType
+  | none => none
+
+/-- an arm of the generated `Rdata::components` table is fine: its component list is well
+    formed, and if it contains a compressible name then all its types are RFC 1035 name types -/
+def armOK (a : List Nat × Option Nat × String) : Bool :=
+  match handlerTypes a.2.2 with
+  | some ts => !(ts.contains .compressibleName) || a.1.all (rfc1035NameTypes.contains ·)
+  | none => false
+
+theorem arms_ok : Gen.rdataComponentsArms.all armOK = true := by decide
+theorem default_ok : handlerTypes Gen.rdataComponentsDefault = some [] := by decide
+
+theorem componentTypes_eq (cls ty : Nat) :
+    componentTypes cls ty =
+      handlerTypes (QV.Rdata.lookup Gen.rdataComponentsArms Gen.rdataComponentsDefault cls ty) := rfl
+
+theorem componentTypes_total (cls ty : Nat) : ∃ ts, componentTypes cls ty = some ts := by
+  rw [componentTypes_eq]
+  rcases lookup_cases Gen.rdataComponentsArms Gen.rdataComponentsDefault cls ty with h | ⟨a, ha, h2, h3⟩
+  · rw [h, default_ok]; exact ⟨_, rfl⟩
+  · rw [h2]
+    have := List.all_eq_true.mp arms_ok a ha
+    unfold armOK at this
+    cases hh : handlerTypes a.2.2 with
+    | some ts => exact ⟨ts, rfl⟩
+    | none => rw [hh] at this; cases this
+
+theorem componentTypes_compressible (cls ty : Nat) (ts : List CompType)
+    (h : componentTypes cls ty = some ts) (hc : CompType.compressibleName ∈ ts) :
+    ty ∈ rfc1035NameTypes := by
+  rw [componentTypes_eq] at h
+  rcases lookup_cases Gen.rdataComponentsArms Gen.rdataComponentsDefault cls ty with h1 | ⟨a, ha, h2, h3⟩
+  · rw [h1, default_ok] at h; cases h; cases hc
+  · rw [h2] at h
+    have := List.all_eq_true.mp arms_ok a ha
+    unfold armOK at this
+    rw [h] at this
+    simp only [Bool.or_eq_true, Bool.not_eq_true', List.all_eq_true] at this
+    rcases this with hno | hall
+    · have : ts.contains CompType.compressibleName = true := by simpa using hc
+      rw [this] at hno; cases hno
+    · have h4 : ty ∈ a.1 := by simpa using h3
+      have := hall ty h4
+      simpa using this
+
+/-- SRV (class IN): six fixed octets and a name that is never compressed -/
+theorem componentTypes_srv_in : componentTypes 1 33 = some [.fixedLen 6, .uncompressibleName] := by decide
+
+/-- Chaosnet A: a name that is never compressed, then the address -/
+theorem componentTypes_ch_a : componentTypes 3 1 = some [.uncompressibleName] := by decide
+
+/-- any type that no arm of the table mentions is written verbatim -/
+theorem componentTypes_unknown (cls ty : Nat)
+    (h : ∀ a ∈ Gen.rdataComponentsArms, a.1.contains ty = false) : componentTypes cls ty = some [] := by
+  rw [componentTypes_eq]
+  rcases lookup_cases Gen.rdataComponentsArms Gen.rdataComponentsDefault cls ty with h1 | ⟨a, ha, h2, h3⟩
+  · rw [h1]; exact default_ok
+  · rw [h a ha] at h3; cases h3
 
 end QV.Writer
